@@ -445,7 +445,16 @@ def batch_repeat_tag(ops, expected, observed, kinds):
             return ''
     if [x for x in observed if x not in extra] != [x for x in expected if x not in extra]:
         return ''
-    return ':repeated-inside-one-batch'
+    return 'once-only-argument-repeated-inside-one-batch-is-kept:' + '+'.join(sorted({kind_name(kinds, x) for x in extra}))
+
+
+def vkey(clsname, where, ops, expected, observed, kinds):
+    """Key of a list disagreement: one key for the narrow defect class above wherever it is observed, otherwise
+    (place of observation, classifier of the difference)."""
+    tag = batch_repeat_tag(ops, expected, observed, kinds)
+    if tag:
+        return 'C13:%s:%s' % (clsname, tag)
+    return 'C13:%s:%s:%s' % (clsname, where, diff_class(expected, observed, kinds))
 
 
 def kind_name(kinds, a):
@@ -532,13 +541,13 @@ def run_case(clsname, ops, acc, compare_prefix, key_idx=None):
                 acc.c['native_with_group'] += 1
         if obs != exp:
             ok = False
-            acc.viol('C13:%s:%s:%s%s' % (clsname, n, diff_class(exp, obs, kinds), batch_repeat_tag(ops[:idx + 1], exp, obs, kinds)),
+            acc.viol(vkey(clsname, n, ops[:idx + 1], exp, obs, kinds),
                      'after %s: expected %r, observed %r' % ('; '.join(opname(o) for o in ops[:idx + 1]), exp, obs), rep)
         if n == 'tn_copy':
             after = list(obj)
             if after != model:
                 ok = False
-                acc.viol('C13:%s:tn_copy-changed-object:%s%s' % (clsname, diff_class(model, after, kinds), batch_repeat_tag(ops[:idx + 1], model, after, kinds)),
+                acc.viol(vkey(clsname, 'tn_copy-changed-object', ops[:idx + 1], model, after, kinds),
                          'to_native(copy=True) changed the object: expected %r, observed %r' % (model, after), rep)
         if n == 'read':
             acc.c['invariant_checks'] += 1
@@ -550,7 +559,7 @@ def run_case(clsname, ops, acc, compare_prefix, key_idx=None):
             lo = list(o)
             if lo != m:
                 ok = False
-                acc.viol('C13:%s:original-changed:%s%s' % (clsname, diff_class(m, lo, kinds), batch_repeat_tag(ops[:idx + 1], m, lo, kinds)),
+                acc.viol(vkey(clsname, 'original-changed', ops[:idx + 1], m, lo, kinds),
                          'original of a copy() no longer equals its list: expected %r, observed %r' % (m, lo), rep)
     return key, model, orig_models, ok
 
@@ -895,7 +904,8 @@ def run_seqread(clsname, ops, reader, acc):
                  '%s raised %r after %s (eager list %r, len() said %d)' % (reader, e, text, model, nlen), rep)
         return
     if obs != exp:
-        acc.viol('C13:%s:seqread:%s:%s%s' % (clsname, reader, diff_class(exp, obs, kinds), batch_repeat_tag(ops, model, list(obj), kinds)),
+        acc.viol(('C13:%s:%s' % (clsname, batch_repeat_tag(ops, model, list(obj), kinds))) if batch_repeat_tag(ops, model, list(obj), kinds)
+                 else 'C13:%s:seqread:%s:%s' % (clsname, reader, diff_class(exp, obs, kinds)),
                  '%s after %s: expected %r, observed %r' % (reader, text, exp, obs), rep)
 
 
